@@ -568,3 +568,7 @@ Example parse_show_example :
   flat_fun ex_flat = true /\ ok_cmd old_flags false ex_flat = true /\
   parse (tokenize (show old_flags ex_flat)) = Some ex_flat.
 Proof. vm_compute. repeat split; reflexivity. Qed.
+
+(** the printer as it is now *)
+Theorem parse_show_current c : flat_fun c = true -> wf c = true -> parse (tokenize (show current_flags c)) = Some c.
+Proof. rewrite current_is_repaired. intros Hf Hw. apply parse_show; assumption. Qed.
